@@ -6,7 +6,7 @@ COMMON_ASSUME = [
     "usize is 64 bits; array length < 2^62 (Queryable::as_array contract)",
     "AST integers are in the I-JSON range (parser call sites of validate_range are pest code; validate_range itself is proved)",
     "implementors of Queryable are faithful (accessor contracts in contracts/queryable_trait.rs)",
-    "extraction rules E1-E10 / E1b preserve meaning (generated worlds are re-type-checked by rustc; each application is logged)",
+    "extraction rules E1-E12 / E1b preserve meaning (generated worlds are re-type-checked by rustc; each application is logged)",
     "machine arithmetic is NOT treated as mathematical: Verus generates overflow / bounds obligations for every i64 / usize operation of the verified bodies and none is assumed away; "
     "f64 is never reasoned about in Verus (cmp_numbers is an assumed unit there) and is decided bit-precisely by the Kani harnesses",
     "the crate contains no unsafe code (scanned on every C12 run); the assumed std-shape contracts of contracts/helpers.rs are sanity-checked by the bounded `helpers` group on every run",
